@@ -889,8 +889,12 @@ func VH_C16_failed_target_write() {
 	go func() { h.Handle(client); close(done) }()
 	n := 1 + verifChoice("datagrams", 2)
 	failAt := 1 + verifChoice("fail-at", n)
+	// the error is an opaque one (EPERM, unreachable network) or the one a socket closed meanwhile
+	// gives ("use of closed network connection"): either way it concerns that datagram only
+	asClosed := verifFlag("write-fails-as-closed")
 	verifReplyScript = func(i int, pc *verifPacketConn) {
 		pc.writeFailAt = failAt
+		pc.writeFailClosed = asClosed
 		// the target never answers: the association lives until its deadline
 		pc.reads = nil
 	}
@@ -916,7 +920,7 @@ func VH_C16_failed_target_write() {
 			verifAssert("C14.failed-target-write.socket-closed|C18.failed-target-write.socket-closed", verifTargets[i].closed == 1)
 		}
 	}
-	verifAssert("C16.failed-target-write.every-datagram-reported-once", reports == n)
+	verifAssert("C16.failed-target-write.every-datagram-reported-once|C18.failed-target-write.listener-goes-on-serving", reports == n)
 	verifAssert("C18.failed-target-write.no-goroutine-left|C14.failed-target-write.no-goroutine-left", verifBlockedIn("timedCopy") == 0)
 	client.Close()
 	verifQuiesce()
